@@ -41,6 +41,14 @@ theorem NumCut_ite {r : Bytes} (c : Prop) [Decidable c] {a b a' b' : NumOut}
   · rw [if_pos hc, if_pos hc]; exact h1 hc
   · rw [if_neg hc, if_neg hc]; exact h2 hc
 
+/-- the big run fails on a test that the small run can only pass if the big run passes it -/
+theorem NumCut_ite_err {r : Bytes} (c c' : Prop) [Decidable c] [Decidable c'] {x : Bytes}
+    {b a' b' : NumOut} (hcc : c' → c) (h : NumCut r b b') :
+    NumCut r (if c then .err x else b) (if c' then a' else b') := by
+  by_cases hc : c
+  · rw [if_pos hc]; exact NumCut_err _ _ _
+  · rw [if_neg hc, if_neg (fun h' => hc (hcc h'))]; exact h
+
 theorem peek_app {w : Bytes} (r : Bytes) (h : w ≠ []) : peek (w ++ r) = peek w := by
   cases w with
   | nil => exact absurd rfl h
@@ -218,5 +226,473 @@ theorem ratioDenominator_ok_lt {s rest : Bytes} (h : ratioDenominator s = .ok re
     simp only [if_true, List.length_cons]
     have := dropWhile_length_le is09 s'
     omega
+
+/-! ### small facts used by the tails -/
+
+theorem finishNum_ok {v v' : NumVal} {s rest : Bytes} (h : finishNum v s = .ok v' rest) :
+    v' = v ∧ rest = s := by
+  unfold finishNum at h
+  split at h
+  · cases h; exact ⟨rfl, rfl⟩
+  · cases h
+
+theorem numLen_ite_eq (c : Prop) [Decidable c] (a b : NumOut) (n : Nat) (ha : numLen a = n)
+    (hb : numLen b = n) : numLen (if c then a else b) = n := by split <;> assumption
+
+theorem numLen_ok {o : NumOut} {v : NumVal} {rest : Bytes} (h : o = .ok v rest) :
+    rest.length = numLen o := by subst h; rfl
+
+theorem peek_cons (a : UInt8) (u : Bytes) : peek (a :: u) = a := rfl
+theorem adv_cons (a : UInt8) (u : Bytes) : adv (a :: u) = u := rfl
+theorem peek_nil : peek [] = 0 := rfl
+theorem adv_nil : adv [] = [] := rfl
+
+theorem fracDigits_cut (exp : Bool) (u r : Bytes)
+    (h : r.length ≤ (fracDigits exp (u ++ r)).length) :
+    fracDigits exp (u ++ r) = fracDigits exp u ++ r :=
+  dropWhile_cut _ u r h
+
+theorem fracDigits_lt (exp : Bool) {s : Bytes} (h : is09 (peek s) = true) :
+    (fracDigits exp s).length < s.length := by
+  cases s with
+  | nil => exact absurd h (by decide)
+  | cons c s' =>
+    have hc : is09 c = true := h
+    unfold fracDigits
+    rw [List.dropWhile_cons]
+    simp only [hc, Bool.true_or, if_true, List.length_cons]
+    have := dropWhile_length_le (fun c => is09 c || (exp && c == 0x5F)) s'
+    omega
+
+/-- scan fraction/exponent digits, then continue: the generic cut step -/
+theorem fracDigits_then_cut (exp : Bool) (w r : Bytes) (G Gs : Bytes → NumOut)
+    (hlen : ∀ s, numLen (G s) ≤ s.length) (hcut : ∀ w', NumCut r (G (w' ++ r)) (Gs w')) :
+    NumCut r (G (fracDigits exp (w ++ r))) (Gs (fracDigits exp w)) := by
+  by_cases hl : r.length ≤ (fracDigits exp (w ++ r)).length
+  · rw [fracDigits_cut exp w r hl]; exact hcut _
+  · apply NumCut_of_lt
+    have := hlen (fracDigits exp (w ++ r))
+    omega
+
+/-! ### radixTail -/
+
+theorem radixTail_nil (cfg : Cfg) (neg : Bool) (radix : Nat) (allowN : Bool) (ds : Bytes) :
+    radixTail cfg neg radix allowN ds [] = .ok (intOrBig cfg (slice ds []) radix neg) [] := by
+  cases allowN <;> rfl
+
+theorem radixTail_ok_long {cfg : Cfg} {neg : Bool} {radix : Nat} {allowN : Bool} {ds s : Bytes}
+    {v : NumVal} {rest : Bytes} (h : radixTail cfg neg radix allowN ds s = .ok v rest)
+    (hne : s ≠ []) (hl : s.length ≤ rest.length) :
+    rest = s ∧ v = intOrBig cfg (slice ds s) radix neg := by
+  have ha := adv_length_lt hne
+  have hlen := numLen_ok h
+  unfold radixTail at h hlen
+  simp only [] at h hlen
+  by_cases hN : (allowN && peek s == 0x4E) = true
+  · simp only [hN, if_true] at hlen
+    rw [numLen_ite_eq _ _ _ (adv s).length rfl (finishNum_len _ _)] at hlen
+    omega
+  · simp only [hN, Bool.false_eq_true, if_false] at h hlen
+    by_cases hM : (peek s == 0x4D) = true
+    · simp only [hM, if_true] at hlen
+      rw [numLen_ite_eq _ _ _ (adv s).length rfl (finishNum_len _ _)] at hlen
+      omega
+    · simp only [hM, if_false, Bool.false_eq_true, ite_self] at h
+      split at h
+      · cases h
+      · obtain ⟨h1, h2⟩ := finishNum_ok h
+        exact ⟨h2, h1⟩
+
+theorem radixEnd_cut (allowN : Bool) (a : UInt8) (v : NumVal) (w r : Bytes) :
+    NumCut r
+      (if ((if allowN = true then peek (w ++ r) else a) == 0x2F) = true then .err (w ++ r)
+        else finishNum v (w ++ r))
+      (if ((if allowN = true then peek w else a) == 0x2F) = true then .err w else finishNum v w) := by
+  cases allowN with
+  | false =>
+    simp only [Bool.false_eq_true, if_false]
+    exact NumCut_ite _ (fun _ => NumCut_err _ _ _) (fun _ => finishNum_cut _ _ _)
+  | true =>
+    simp only [if_true]
+    cases w with
+    | nil =>
+      have : (peek ([] : Bytes) == 0x2F) = false := by decide
+      rw [this]
+      simp only [Bool.false_eq_true, if_false]
+      split
+      · exact NumCut_err _ _ _
+      · exact finishNum_cut _ _ _
+    | cons b w' =>
+      simp only [peek_append_cons, peek_cons]
+      exact NumCut_ite _ (fun _ => NumCut_err _ _ _) (fun _ => finishNum_cut _ _ _)
+
+theorem radixTail_cut (cfg : Cfg) (neg : Bool) (radix : Nat) (allowN : Bool) (ds u r : Bytes) :
+    NumCut r (radixTail cfg neg radix allowN (ds ++ r) (u ++ r)) (radixTail cfg neg radix allowN ds u) := by
+  cases r with
+  | nil => simp only [List.append_nil]; exact NumCut_nil _
+  | cons c r' =>
+  cases u with
+  | nil =>
+    intro v rest hbig hl
+    obtain ⟨h1, h2⟩ := radixTail_ok_long hbig (by simp) (by simpa using hl)
+    refine ⟨[], h1, ?_⟩
+    rw [radixTail_nil, h2, slice_append_right]
+  | cons a u' =>
+    unfold radixTail
+    simp only [peek_append_cons, adv_append_cons, peek_cons, adv_cons, slice_append_right]
+    by_cases hN : (allowN && a == 0x4E) = true
+    · simp only [hN, if_true]
+      exact radixEnd_cut allowN a _ u' _
+    · simp only [hN]
+      by_cases hM : (a == 0x4D) = true
+      · simp only [hM, if_true]
+        exact radixEnd_cut allowN a _ u' _
+      · simp only [hM, if_false, Bool.false_eq_true]
+        exact radixEnd_cut allowN a _ (a :: u') _
+
+/-! ### decimalTail -/
+
+/-- value creation of a ratio literal, after the denominator has been scanned up to `s'` -/
+def ratioK (cfg : Cfg) (neg : Bool) (digits den s' : Bytes) : NumOut :=
+  match parseInt64 cfg digits 10 neg, parseInt64 cfg den 10 false with
+  | some n, some d =>
+    let g := ratioGcd n d
+    let n' := if g > 1 then n / (g : Int) else n
+    let d' := if g > 1 then d / (g : Int) else d
+    if n' == 0 then .ok (.int 0) s'
+    else if d' == 1 then .ok (.int n') s'
+    else finishNum (.ratio n' d') s'
+  | _, some d =>
+    if d == 1 then finishNum (.bigint neg 10 digits) s' else finishNum (.bigratio neg digits den) s'
+  | _, none => finishNum (.bigratio neg digits den) s'
+
+theorem decimalTail_eq (cfg : Cfg) (start : Bytes) (neg hasDec hasExp : Bool) (ds s : Bytes) :
+    decimalTail cfg start neg hasDec hasExp ds s =
+      if (cfg.exp && (peek s == 0x4E || peek s == 0x4D || peek s == 0x2F) && lastIsUnderscore ds s) = true
+        then .err s
+      else if (peek s == 0x4E && !hasDec && !hasExp) = true then
+        finishNum (.bigint neg 10 (slice ds s)) (adv s)
+      else if (peek s == 0x4D) = true then finishNum (.bigdec neg (slice ds s)) (adv s)
+      else if (cfg.clj && peek s == 0x2F && !hasDec && !hasExp) = true then
+        match ratioDenominator (adv s) with
+        | .error cur => .err cur
+        | .ok s' => ratioK cfg neg (slice ds s) (slice (adv s) s') s'
+      else if (hasDec || hasExp) = true then finishNum (.float (parseDouble cfg (slice start s))) s
+      else finishNum (intOrBig cfg (slice ds s) 10 neg) s := by
+  unfold decimalTail ratioK
+  rfl
+
+theorem ratioK_len (cfg : Cfg) (neg : Bool) (digits den s' : Bytes) :
+    numLen (ratioK cfg neg digits den s') = s'.length := by
+  unfold ratioK
+  split
+  · simp only []
+    apply numLen_ite_eq
+    · rfl
+    apply numLen_ite_eq
+    · rfl
+    · exact finishNum_len _ _
+  · apply numLen_ite_eq <;> exact finishNum_len _ _
+  · exact finishNum_len _ _
+
+theorem ratioK_cut (cfg : Cfg) (neg : Bool) (digits den w r : Bytes) :
+    NumCut r (ratioK cfg neg digits den (w ++ r)) (ratioK cfg neg digits den w) := by
+  unfold ratioK
+  cases parseInt64 cfg den 10 false with
+  | none =>
+    cases parseInt64 cfg digits 10 neg <;> exact finishNum_cut _ _ _
+  | some d =>
+    cases parseInt64 cfg digits 10 neg with
+    | none =>
+      exact NumCut_ite _ (fun _ => finishNum_cut _ _ _) (fun _ => finishNum_cut _ _ _)
+    | some n =>
+      simp only []
+      apply NumCut_ite
+      · intro _; exact NumCut_ok _ _ _
+      · intro _
+        apply NumCut_ite
+        · intro _; exact NumCut_ok _ _ _
+        · intro _; exact finishNum_cut _ _ _
+
+theorem decimalTail_nil (cfg : Cfg) (start : Bytes) (neg hasDec hasExp : Bool) (ds : Bytes) :
+    decimalTail cfg start neg hasDec hasExp ds [] =
+      .ok (if (hasDec || hasExp) = true then .float (parseDouble cfg (slice start []))
+           else intOrBig cfg (slice ds []) 10 neg) [] := by
+  rw [decimalTail_eq]
+  have h1 : (peek ([] : Bytes) == 0x4E) = false := by decide
+  have h2 : (peek ([] : Bytes) == 0x4D) = false := by decide
+  have h3 : (peek ([] : Bytes) == 0x2F) = false := by decide
+  simp only [h1, h2, h3, Bool.or_false, Bool.and_false, Bool.false_and, Bool.false_eq_true, if_false]
+  split <;> rfl
+
+theorem decimalTail_ok_long {cfg : Cfg} {start : Bytes} {neg hasDec hasExp : Bool} {ds s : Bytes}
+    {v : NumVal} {rest : Bytes} (h : decimalTail cfg start neg hasDec hasExp ds s = .ok v rest)
+    (hne : s ≠ []) (hl : s.length ≤ rest.length) :
+    rest = s ∧ v = (if (hasDec || hasExp) = true then .float (parseDouble cfg (slice start s))
+           else intOrBig cfg (slice ds s) 10 neg) := by
+  have ha := adv_length_lt hne
+  rw [decimalTail_eq] at h
+  split at h
+  · cases h
+  split at h
+  · obtain ⟨_, h2⟩ := finishNum_ok h
+    rw [h2] at hl; omega
+  split at h
+  · obtain ⟨_, h2⟩ := finishNum_ok h
+    rw [h2] at hl; omega
+  split at h
+  · exfalso
+    have hr := ratioDenominator_len (adv s)
+    cases hrd : ratioDenominator (adv s) with
+    | error cur => rw [hrd] at h; cases h
+    | ok s' =>
+      rw [hrd] at h hr
+      simp only [exLen] at hr
+      simp only [] at h
+      have := numLen_ok h
+      rw [ratioK_len] at this
+      omega
+  split at h
+  · rename_i hc
+    obtain ⟨h1, h2⟩ := finishNum_ok h
+    exact ⟨h2, by rw [if_pos hc]; exact h1⟩
+  · rename_i hc
+    obtain ⟨h1, h2⟩ := finishNum_ok h
+    exact ⟨h2, by rw [if_neg hc]; exact h1⟩
+
+theorem decimalTail_cut (cfg : Cfg) (start : Bytes) (neg hasDec hasExp : Bool) (ds u r : Bytes) :
+    NumCut r (decimalTail cfg (start ++ r) neg hasDec hasExp (ds ++ r) (u ++ r))
+      (decimalTail cfg start neg hasDec hasExp ds u) := by
+  cases r with
+  | nil => simp only [List.append_nil]; exact NumCut_nil _
+  | cons c r' =>
+  cases u with
+  | nil =>
+    intro v rest hbig hl
+    obtain ⟨h1, h2⟩ := decimalTail_ok_long hbig (by simp) (by simpa using hl)
+    refine ⟨[], h1, ?_⟩
+    rw [decimalTail_nil, h2, slice_append_right, slice_append_right]
+  | cons a u' =>
+    rw [decimalTail_eq, decimalTail_eq]
+    simp only [peek_append_cons, adv_append_cons, peek_cons, adv_cons, slice_append_right,
+      lastIsUnderscore_append_right]
+    apply NumCut_ite
+    · intro _; exact NumCut_err _ _ _
+    intro _
+    apply NumCut_ite
+    · intro _; exact finishNum_cut _ _ _
+    intro _
+    apply NumCut_ite
+    · intro _; exact finishNum_cut _ _ _
+    intro _
+    apply NumCut_ite
+    · intro _
+      cases hb : ratioDenominator (u' ++ c :: r') with
+      | error cur => exact NumCut_err _ _ _
+      | ok s' =>
+        simp only []
+        by_cases hl : (c :: r').length ≤ s'.length
+        · obtain ⟨w, hw, hs⟩ := ratioDenominator_cut u' (c :: r') s' hb hl
+          subst hw
+          rw [hs]
+          simp only [slice_append_right]
+          exact ratioK_cut _ _ _ _ _ _
+        · apply NumCut_of_lt
+          rw [ratioK_len]
+          omega
+    intro _
+    apply NumCut_ite
+    · intro _; exact finishNum_cut _ _ _
+    · intro _; exact finishNum_cut _ _ _
+
+/-! ### exponentPart -/
+
+/-- the exponent digits and what follows; `s2` is behind the optional sign -/
+def expDigits (cfg : Cfg) (start : Bytes) (neg hasDec : Bool) (ds s2 : Bytes) : NumOut :=
+  if (!is09 (peek s2)) = true then .err s2
+  else decimalTail cfg start neg hasDec true ds (fracDigits cfg.exp s2)
+
+/-- `exponentPart` behind the `e`/`E` -/
+def expAfter (cfg : Cfg) (start : Bytes) (neg hasDec : Bool) (ds s1 : Bytes) : NumOut :=
+  expDigits cfg start neg hasDec ds (if (peek s1 == 0x2B || peek s1 == 0x2D) = true then adv s1 else s1)
+
+theorem exponentPart_eq (cfg : Cfg) (start : Bytes) (neg hasDec : Bool) (ds s : Bytes) :
+    exponentPart cfg start neg hasDec ds s = expAfter cfg start neg hasDec ds (adv s) := rfl
+
+theorem expDigits_len (cfg : Cfg) (start : Bytes) (neg hasDec : Bool) (ds s2 : Bytes) :
+    numLen (expDigits cfg start neg hasDec ds s2) ≤ s2.length := by
+  unfold expDigits
+  apply numLen_ite
+  · exact Nat.le_refl _
+  · have := decimalTail_len cfg start neg hasDec true ds (fracDigits cfg.exp s2)
+    have := fracDigits_len cfg.exp s2
+    omega
+
+theorem expAfter_len (cfg : Cfg) (start : Bytes) (neg hasDec : Bool) (ds s1 : Bytes) :
+    numLen (expAfter cfg start neg hasDec ds s1) ≤ s1.length := by
+  unfold expAfter
+  have ha := adv_length_le s1
+  split
+  · have := expDigits_len cfg start neg hasDec ds (adv s1); omega
+  · exact expDigits_len ..
+
+theorem expDigits_cut (cfg : Cfg) (start : Bytes) (neg hasDec : Bool) (ds w r : Bytes) :
+    NumCut r (expDigits cfg (start ++ r) neg hasDec (ds ++ r) (w ++ r))
+      (expDigits cfg start neg hasDec ds w) := by
+  cases r with
+  | nil => simp only [List.append_nil]; exact NumCut_nil _
+  | cons c r' =>
+  cases w with
+  | nil =>
+    unfold expDigits
+    by_cases h9 : is09 (peek ([] ++ c :: r')) = true
+    · apply NumCut_of_lt
+      rw [h9]
+      simp only [Bool.not_true, Bool.false_eq_true, if_false]
+      have := decimalTail_len cfg (start ++ c :: r') neg hasDec true (ds ++ c :: r')
+        (fracDigits cfg.exp ([] ++ c :: r'))
+      have := fracDigits_lt cfg.exp h9
+      simp only [List.nil_append] at *
+      omega
+    · simp only [h9]
+      exact NumCut_err _ _ _
+  | cons b w' =>
+    unfold expDigits
+    simp only [peek_append_cons, peek_cons]
+    apply NumCut_ite
+    · intro _; exact NumCut_err _ _ _
+    · intro _
+      exact fracDigits_then_cut cfg.exp (b :: w') (c :: r')
+        (fun s => decimalTail cfg (start ++ c :: r') neg hasDec true (ds ++ c :: r') s)
+        (fun s => decimalTail cfg start neg hasDec true ds s)
+        (fun s => decimalTail_len ..) (fun w'' => decimalTail_cut _ _ _ _ _ _ _ _)
+
+theorem expAfter_cut (cfg : Cfg) (start : Bytes) (neg hasDec : Bool) (ds w r : Bytes) :
+    NumCut r (expAfter cfg (start ++ r) neg hasDec (ds ++ r) (w ++ r))
+      (expAfter cfg start neg hasDec ds w) := by
+  cases r with
+  | nil => simp only [List.append_nil]; exact NumCut_nil _
+  | cons c r' =>
+  cases w with
+  | nil =>
+    -- the small run fails; the big run consumes at least the first exponent digit
+    intro v rest hbig hl
+    exfalso
+    unfold expAfter at hbig
+    simp only [List.nil_append] at hbig
+    have hlen := numLen_ok hbig
+    split at hbig
+    · have := expDigits_len cfg (start ++ c :: r') neg hasDec (ds ++ c :: r') (adv (c :: r'))
+      rename_i hc
+      simp only [hc, if_true] at hlen
+      simp only [adv_cons, List.length_cons] at *
+      omega
+    · unfold expDigits at hbig
+      split at hbig
+      · cases hbig
+      · rename_i h9
+        have h9' : is09 (peek (c :: r')) = true := by simpa using h9
+        have := fracDigits_lt cfg.exp h9'
+        have := decimalTail_len cfg (start ++ c :: r') neg hasDec true (ds ++ c :: r')
+          (fracDigits cfg.exp (c :: r'))
+        have := numLen_ok hbig
+        omega
+  | cons b w' =>
+    unfold expAfter
+    simp only [peek_append_cons, adv_append_cons, peek_cons, adv_cons]
+    by_cases hc : (b == 0x2B || b == 0x2D) = true
+    · simp only [hc, if_true]
+      exact expDigits_cut _ _ _ _ _ _ _
+    · simp only [hc]
+      exact expDigits_cut cfg start neg hasDec ds (b :: w') (c :: r')
+
+theorem exponentPart_cut (cfg : Cfg) (start : Bytes) (neg hasDec : Bool) (ds u r : Bytes) :
+    NumCut r (exponentPart cfg (start ++ r) neg hasDec (ds ++ r) (u ++ r))
+      (exponentPart cfg start neg hasDec ds u) := by
+  cases r with
+  | nil => simp only [List.append_nil]; exact NumCut_nil _
+  | cons c r' =>
+  rw [exponentPart_eq, exponentPart_eq]
+  cases u with
+  | nil =>
+    apply NumCut_of_lt
+    have := expAfter_len cfg (start ++ c :: r') neg hasDec (ds ++ c :: r') (adv ([] ++ c :: r'))
+    simp only [List.nil_append, adv_cons, List.length_cons] at *
+    omega
+  | cons a u' =>
+    simp only [adv_append_cons, adv_cons]
+    exact expAfter_cut _ _ _ _ _ _ _
+
+theorem exponentPart_len_adv (cfg : Cfg) (start : Bytes) (neg hasDec : Bool) (ds s : Bytes) :
+    numLen (exponentPart cfg start neg hasDec ds s) ≤ (adv s).length := by
+  rw [exponentPart_eq]; exact expAfter_len ..
+
+/-! ### afterMantissa -/
+
+theorem afterMantissa_cut (cfg : Cfg) (start : Bytes) (neg hasDec : Bool) (ds u r : Bytes) :
+    NumCut r (afterMantissa cfg (start ++ r) neg hasDec (ds ++ r) (u ++ r))
+      (afterMantissa cfg start neg hasDec ds u) := by
+  cases r with
+  | nil => simp only [List.append_nil]; exact NumCut_nil _
+  | cons c r' =>
+  cases u with
+  | nil =>
+    have hs : afterMantissa cfg start neg hasDec ds [] = decimalTail cfg start neg hasDec false ds [] := rfl
+    rw [hs]
+    unfold afterMantissa
+    simp only []
+    split
+    · split
+      · exact NumCut_err _ _ _
+      · apply NumCut_of_lt
+        have := exponentPart_len_adv cfg (start ++ c :: r') neg hasDec (ds ++ c :: r') ([] ++ c :: r')
+        simp only [List.nil_append, adv_cons, List.length_cons] at *
+        omega
+    · exact decimalTail_cut _ _ _ _ _ _ _ _
+  | cons a u' =>
+    unfold afterMantissa
+    simp only [peek_append_cons, peek_cons, lastIsUnderscore_append_right]
+    apply NumCut_ite
+    · intro _
+      apply NumCut_ite
+      · intro _; exact NumCut_err _ _ _
+      · intro _; exact exponentPart_cut _ _ _ _ _ _ _
+    · intro _; exact decimalTail_cut _ _ _ _ _ _ _ _
+
+/-! ### decimalPart -/
+
+theorem decimalPart_len_adv (cfg : Cfg) (start : Bytes) (neg : Bool) (ds s : Bytes) :
+    numLen (decimalPart cfg start neg ds s) ≤ (adv s).length := by
+  unfold decimalPart
+  simp only []
+  apply numLen_ite
+  · exact Nat.le_refl _
+  · have := afterMantissa_len cfg start neg true ds (fracDigits cfg.exp (adv s))
+    have := fracDigits_len cfg.exp (adv s)
+    omega
+
+theorem decimalPart_cut (cfg : Cfg) (start : Bytes) (neg : Bool) (ds u r : Bytes) :
+    NumCut r (decimalPart cfg (start ++ r) neg (ds ++ r) (u ++ r))
+      (decimalPart cfg start neg ds u) := by
+  cases r with
+  | nil => simp only [List.append_nil]; exact NumCut_nil _
+  | cons c r' =>
+  cases u with
+  | nil =>
+    apply NumCut_of_lt
+    have := decimalPart_len_adv cfg (start ++ c :: r') neg (ds ++ c :: r') ([] ++ c :: r')
+    simp only [List.nil_append, adv_cons, List.length_cons] at *
+    omega
+  | cons a u' =>
+    unfold decimalPart
+    simp only [adv_append_cons, adv_cons]
+    apply NumCut_ite_err
+    · intro h
+      simp only [Bool.and_eq_true, beq_iff_eq] at h ⊢
+      exact ⟨h.1, peek_app_of_ne_zero _ (by decide) h.2⟩
+    · exact fracDigits_then_cut cfg.exp u' (c :: r')
+        (fun s => afterMantissa cfg (start ++ c :: r') neg true (ds ++ c :: r') s)
+        (fun s => afterMantissa cfg start neg true ds s)
+        (fun s => afterMantissa_len ..) (fun w'' => afterMantissa_cut _ _ _ _ _ _ _)
 
 end Edn.Proofs
